@@ -42,6 +42,10 @@ def _case(draw):
     return {"dir": draw(P.directory(1, 3, rich=True, max_headers=3)),
             "today": draw(st.sampled_from(["2024-06-15", "2000-01-03", "2031-12-31"])),
             "more": draw(st.lists(st.sampled_from(["create", "reindex"]), max_size=3)),
+            # the directory has been used before: per-date ZID counters already advanced (to positions
+            # just before look-alike characters are skipped, carries, the 2->3 character extension)
+            "counter_pos": draw(st.one_of(st.none(), st.sampled_from([16, 22, 24, 36, 38, 39, 40, 45, 48, 49, 50, 2040, 2598, 2600, 2601, 5201, 135240]),
+                                          st.integers(0, 3000))),
             # 1 case in 25: the same commands again, each in a real fresh process (validates the
             # in-process emulation of process boundaries)
             "subproc": draw(st.integers(0, 24)) == 0}
@@ -95,6 +99,16 @@ def check(case, rec: Rec) -> None:
         zdir = box / "org"
         zdir.mkdir()
         env.write_files(zdir, files)
+        if case.get("counter_pos") is not None:
+            import json as _json
+            from .c07 import chain
+
+            dates = {e["create"] for exp, _, _ in exps.values() for e in exp} | {today}
+            (zdir / ".zorg").mkdir()
+            counters_json = _json.dumps(
+                {d[2:4] + d[5:7] + d[8:10]: chain()[case["counter_pos"]] for d in sorted(dates)}, indent=4)
+            (zdir / ".zorg" / "next_ids.json").write_text(counters_json)
+            rec.label("pre-advanced-zid-counters")
         with rec.sut("db-create"):
             r = env.zorg(zdir, "db", "create")
         if r.code != 0:
@@ -181,6 +195,9 @@ def check(case, rec: Rec) -> None:
             twin = box / "twin"
             twin.mkdir()
             env.write_files(twin, files)
+            if case.get("counter_pos") is not None:
+                (twin / ".zorg").mkdir()
+                (twin / ".zorg" / "next_ids.json").write_text(counters_json)
             for cmd in ["create"] + case["more"]:
                 r = env.zorg_subprocess(twin, "db", cmd, day=today)
                 if r.code != 0:
